@@ -1920,6 +1920,30 @@ impl<'a> Sim<'a> {
             if merged && amended_by_snapshot {
                 clause = "immutable_commit_stays_visible.snapshot_taken_at_older_operation";
             }
+            // An empty, undescribed working-copy commit is abandoned when its
+            // workspace moves off it (MutableRepo::edit/check_out). Should that
+            // ever hide an immutable commit it gets its own signature: the commit was some
+            // workspace's working-copy commit, an operation of this command
+            // moved that workspace elsewhere, and no visible commit carries
+            // its change id (it was not rewritten).
+            let left_by_workspace = new_ops.iter().any(|s| {
+                if s.parent_ids().len() != 1 {
+                    return false;
+                }
+                let Ok(parent) = reader.operation(&s.parent_ids()[0]) else { return false };
+                let (Ok(vp), Ok(vs)) = (reader.view_summary(&parent), reader.view_summary(s)) else { return false };
+                vp.wc_commits.iter().any(|(ws, w0)| *w0 == c.id && vs.wc_commits.get(ws).is_none_or(|w1| *w1 != c.id))
+            });
+            let change_gone = !self.commits.iter().any(|k| k.change == c.change);
+            if std::env::var_os("VERIF_DEBUG").is_some() {
+                eprintln!("c42 debug: new_ops={} merged={merged} amended={amended_by_snapshot} left={left_by_workspace} gone={change_gone} empty={} described={}", new_ops.len(), c.empty, c.described);
+                for s in new_ops {
+                    eprintln!("  op {} parents {} snapshot {} wc {:?}", s.id().hex(), s.parent_ids().len(), s.metadata().is_snapshot, reader.view_summary(s).map(|v| v.wc_commits));
+                }
+            }
+            if c.empty && !c.described && left_by_workspace && change_gone && !(merged && amended_by_snapshot) {
+                clause = "immutable_commit_stays_visible.discardable_wc_commit_abandoned_when_workspace_left";
+            }
             return fail(
                 clause,
                 format!(
